@@ -121,8 +121,8 @@ func transform(source string, mappings map[string]string, expandMode bool) strin
 			}
 		} else {
 			// Compacting: look for keywords to convert to symbols
-			if unicode.IsLetter(rune(ch)) {
-				// Read the full identifier
+			if unicode.IsLetter(rune(ch)) || ch == '_' {
+				// Read the full identifier (an identifier may start with '_')
 				start := i
 				for i < n && (unicode.IsLetter(rune(source[i])) || unicode.IsDigit(rune(source[i])) || source[i] == '_') {
 					i++
